@@ -35,6 +35,7 @@ def run(rep, tier):
     dispatch(rep, F, D)
     kernels(rep, F, D)
     clamp(rep, F)
+    nn_coverage(rep, F)
 
 
 def dispatch(rep, F, D):
@@ -211,3 +212,35 @@ def clamp(rep, F):
         rep.ok("R7.4", "clamp-table", sample={str(k): v for k, v in rows.items()})
     else:
         rep.bad("R7.4", "clamp-table", "clamp table is %s" % {str(k): v for k, v in rows.items()}, where=fn.loc())
+
+
+def nn_coverage(rep, F):
+    rep.rule("R7.5", "nearest_neighbour_distance queries every vertex of each operand against a tree built from every segment of the other, and takes the minimum of both directions")
+    try:
+        fn = F.one(r"euclidean::distance::nearest_neighbour_distance$", crates=("geo",))
+        from .c01 import opaque
+        ps = [p for p in opaque(F).run(fn) if p.kind == "ret"]
+    except (KeyError, Unanalysable) as e:
+        rep.bad("R7.5", "anchor", str(e))
+        return
+    if len(ps) != 1:
+        rep.bad("R7.5", "paths", "expected a single path, found %d" % len(ps), where=fn.loc())
+        return
+    r = show(ps[0].ret)
+    # min(fold(points(a?), max_value(), closure[tree of the other]), fold(points(a?), ...))
+    folds = re.findall(r"fold\(([^,]*?)\((&?\*?a\d)\), max_value\(\)", r)
+    srcs = sorted((f[0].split("::")[-1], f[1].replace("&", "").replace("*", "")) for f in folds)
+    trees = re.findall(r"bulk_load\(collect\(map\((.*?)\((&?\*?a\d)\)", r)
+    tsrc = sorted({(x[0].split("::")[-1], x[1].replace("&", "").replace("*", "")) for x in trees})
+    ok = srcs == [("points", "a1"), ("points", "a2")] and tsrc == [("lines", "a1"), ("lines", "a2")] and r.startswith("min(")
+    # each fold over the points of one operand must query the tree of the *other* operand
+    if ok:
+        for m in re.finditer(r"fold\([^,]*?\(&?\*?(a\d)\), max_value\(\), closure\([^\)]*\)\[(.*?)\]\)", r):
+            pts, caps = m.group(1), m.group(2)
+            other = "a2" if pts == "a1" else "a1"
+            if ("lines(&*%s)" % other) not in caps.replace(" ", "") and ("lines(%s)" % other) not in caps.replace("&", "").replace("*", ""):
+                ok = False
+    if ok:
+        rep.ok("R7.5", "both-directions-all-vertices", sample=r[:200])
+    else:
+        rep.bad("R7.5", "coverage", "the vertex/segment search does not cover every vertex of both operands against every segment of the other: folds over %s, trees from %s" % (srcs, tsrc), where=fn.loc(), detail=r[:600])
